@@ -3,15 +3,17 @@ Shape of the opcode tables.  `OpTable` is what an `xdis/opcodes/opcode_*.py`
 module exposes (values are GENERATED into `XV.Gen.OpTables`); `RefTable` is what a
 reference CPython's own `opcode` module exposes (generated into `XV.Gen.RefOpTables`).
 -/
+import XV.Base.Str
 namespace XV.Model
+open XV
 
 structure OpTable where
   name : String
   inOpImports : Bool
   version : Nat × Nat
   isPypy : Bool
-  opname : List String
-  opmap : List (String × Nat)
+  opname : List Str
+  opmap : List (Str × Nat)
   oppop : List Int
   oppush : List Int
   haveArgument : Nat
@@ -30,16 +32,16 @@ structure OpTable where
   storeOps : List Nat
   nofollow : List Nat
   hasarg : Option (List Nat)
-  cmpOp : List String
-  findlabels : String
-  findlinestarts : String
+  cmpOp : List Str
+  findlabels : Str
+  findlinestarts : Str
   instrSize : List Nat
-  argFmt : List String
+  argFmt : List Str
   deriving Repr
 
 structure RefTable where
   version : Nat × Nat
-  opmap : List (String × Nat)
+  opmap : List (Str × Nat)
   haveArgument : Nat
   extendedArg : Nat
   hasjrel : List Nat
@@ -50,9 +52,27 @@ structure RefTable where
   hasfree : List Nat
   hascompare : List Nat
   hasarg : Option (List Nat)
-  cmpOp : List String
+  cmpOp : List Str
   cache : List (Nat × Nat)
   magic : List Nat
+  deriving Repr
+
+/-- committed snapshot of a table for a version without a reference interpreter -/
+structure SnapTable where
+  name : String
+  version : Nat × Nat
+  isPypy : Bool
+  opmap : List (Str × Nat)
+  haveArgument : Nat
+  extendedArg : Option Nat
+  extShift : Option Nat
+  jrelOps : List Nat
+  jabsOps : List Nat
+  constOps : List Nat
+  nameOps : List Nat
+  localOps : List Nat
+  freeOps : List Nat
+  compareOps : List Nat
   deriving Repr
 
 /-- version comparison helpers (Python tuple comparison on the first two components) -/
@@ -60,7 +80,7 @@ def verGe (v : Nat × Nat) (a b : Nat) : Bool := v.1 > a || (v.1 == a && v.2 ≥
 def verLt (v : Nat × Nat) (a b : Nat) : Bool := !verGe v a b
 
 namespace OpTable
-def opnameOf (t : OpTable) (op : Nat) : String := t.opname.getD op ""
+def opnameOf (t : OpTable) (op : Nat) : Str := t.opname.getD op []
 def hasArg (t : OpTable) (op : Nat) : Bool := op ≥ t.haveArgument
 def isJrel (t : OpTable) (op : Nat) : Bool := t.jrelOps.contains op
 def isJabs (t : OpTable) (op : Nat) : Bool := t.jabsOps.contains op
